@@ -58,6 +58,9 @@ SNIPPETS = [
     "list(pd.DataFrame({'b': [1], 'a': [2], 'c': [3]}).columns.intersection(['c', 'zz', 'b']))", "list(pd.DataFrame({'b': [1], 'a': [2], 'c': [3]}).columns.difference(['a']))",
     "pd.DataFrame({'b': [1], 'a': [2]}).columns.isin(['a', 'q'])",
     "_v1()", "_v2()", "_v3()",
+    "np.setdiff1d(np.array([5, 1, 3, 1]), np.array([3]))", "np.setdiff1d(np.array([2, 4]), np.array([]))", "np.setdiff1d(np.array([], dtype=int), np.array([1]))",
+    "np.intersect1d(np.array([5, 1, 3, 1]), [1, 5, 9])", "np.union1d(np.array([3, 1]), [2, 3])", "np.bincount(np.array([0, 2, 2, 5]))", "np.bincount(np.array([1]), minlength=4)",
+    "np.bincount(np.array([], dtype=int))", "np.cumsum(np.bincount(np.array([0, 0, 2])))",
     "np.isin(np.array([1, 5, 2]), [2, 1])", "np.isin(np.array([1.0, 2.0]), np.array([]))", "np.isin([3, 4], [4], invert=True)", "np.take(np.array([5, 6, 7]), [2, 0])",
     "np.take(np.array([5, 6, 7]), 1)", "np.repeat(np.array([1, 2]), 3)", "np.repeat(np.array([]), 2)", "np.ediff1d(np.array([1, 4, 9]))",
     "np.argsort(np.array([3, 1, 2]))", "np.argsort(np.array([2.0, 1.0, 2.0, 1.0]))", "np.argsort(np.array([]))", "np.argsort(np.array([True, False, True]))",
